@@ -91,6 +91,36 @@ pub fn agree<F: Family>(b: &[u8], origin: &str, ctx: &mut Ctx) -> CaseResult {
     let mut class = "no-complete-frame".to_string();
     if refdec::complete_frame_len(b).is_some() {
         let poll = fam::dec_poll::<F>(b).result;
+        // "the poll decoder's verdict" must not depend on how the bytes arrived: the same string delivered in two pieces,
+        // the boundary (a position inside the frame derived from the bytes) signalled as a Pending with the future
+        // re-created, or as the end of a slice after which the caller polls again with the state it holds
+        if let Some(flen) = refdec::complete_frame_len(b) {
+            if flen >= 2 {
+                let h = fnv(b);
+                let k = 1 + (h >> 8) as usize % (flen - 1);
+                let (steps, what) = if h & 1 == 0 {
+                    (vec![crate::sio::Step::Chunk(k), crate::sio::Step::Pending, crate::sio::Step::Chunk(b.len() - k)], "a Pending (future re-created)")
+                } else {
+                    (vec![crate::sio::Step::Chunk(k), crate::sio::Step::End, crate::sio::Step::Chunk(b.len() - k)], "the end of a slice (caller polls again with the same state)")
+                };
+                let two = fam::dec_poll_styled::<F>(b, &steps, u64::MAX, None, false, ((h >> 1) & 3) as u8).result;
+                let same = match (&poll, &two) {
+                    (Ok(x), Ok(y)) => x.pkt == y.pkt && x.total == y.total && x.body == y.body,
+                    (Err(x), Err(y)) => x == y,
+                    _ => false,
+                };
+                ensure!(
+                    same,
+                    "poll decoder on {}: delivered at once -> {:?}; delivered in two pieces cut after byte {} by {} -> {:?}",
+                    hex_short(b, 96),
+                    poll.as_ref().map(|o| fam::render(&o.pkt)),
+                    k,
+                    what,
+                    two.as_ref().map(|o| fam::render(&o.pkt))
+                );
+                ctx.label(if h & 1 == 0 { "poll-two-pieces:pending" } else { "poll-two-pieces:slice-end" });
+            }
+        }
         let irl = F::wrap(Error::InvalidRemainingLength);
         match &poll {
             Ok(ok) => {
